@@ -14,7 +14,7 @@ RANGE_IDIOMS = (
 
 def variant_names(cx, adt_suffix):
     for n, a in cx.F.adts.items():
-        if n.endswith('::' + adt_suffix):
+        if n == adt_suffix or n.endswith('::' + adt_suffix):
             return [v['name'] for v in a['variants']]
     return []
 
